@@ -306,6 +306,9 @@ def rule_r2(prog, res) -> None:
         paths = [p for p in symx.explore(prog, fi, env={"on_root()": True, "on_worker()": False}, inline=symx.inline_private_helpers(prog, public={"write_data", "write_samples", "write_covariance", "write_header"}), skip_tests=("logger",)) if p.outcome != "raise"]
 
         def suffixes(ev, e):
+            """the result files an expression names: '<suffix>' when the suffix replaces the prefix's own
+            (prefix.with_suffix), '+<suffix>' when it is appended (Path(f"{prefix}.dat"), str(prefix) + ".dat",
+            prefix.with_name(prefix.name + ".dat")) — the two derivations name different files for a dotted prefix"""
             out = []
             for x in ast.walk(e):
                 if isinstance(x, ast.Call) and isinstance(x.func, ast.Attribute) and x.func.attr == "with_suffix" and x.args:
@@ -313,6 +316,13 @@ def rule_r2(prog, res) -> None:
                     if sfx is None:
                         raise AnalysisError(f"C08.R2: file suffix {unparse(x.args[0])[:30]} in {fi.short} cannot be resolved")
                     out.append(sfx)
+                tail = None
+                if isinstance(x, ast.JoinedStr) and len(x.values) >= 2 and isinstance(x.values[-1], ast.Constant) and isinstance(x.values[-2], ast.FormattedValue):
+                    tail = x.values[-1].value
+                elif isinstance(x, ast.BinOp) and isinstance(x.op, ast.Add) and not isinstance(x.left, ast.Constant):
+                    tail = const_str(prog, ev.fi, x.right) or const_str(prog, fi, x.right)
+                if isinstance(tail, str) and tail.startswith(".") and tail.count(".") == 1 and len(tail) <= 6:
+                    out.append("+" + tail)
             return out
 
         n_seq = 0
@@ -334,11 +344,23 @@ def rule_r2(prog, res) -> None:
             if not first_write:
                 continue
             n_seq += 1
-            if ".dat" not in first_write or ".smp" not in first_write:
-                raise AnalysisError("C08.R2: result writer does not write .dat/.smp through with_suffix (idiom not recognised)")
-            i_d, i_s = first_write[".dat"], first_write[".smp"]
+            dat = next((k_ for k_ in first_write if k_.lstrip("+") == ".dat"), None)
+            smp = next((k_ for k_ in first_write if k_.lstrip("+") == ".smp"), None)
+            if dat is None or smp is None:
+                raise AnalysisError("C08.R2: result writer does not write .dat/.smp files (idiom not recognised)")
+            i_d, i_s = first_write[dat], first_write[smp]
             gone = lambda sfx, before: any(k == "unlink" and s_ == sfx for k, s_, _ in ops[:before])  # noqa: E731
-            if not gone(".smp", i_d):
+            other_form = lambda sfx: sfx[1:] if sfx.startswith("+") else "+" + sfx  # noqa: E731
+            if not gone(smp, i_d) and gone(other_form(smp), i_d):
+                res.violation(
+                    "C08.R2",
+                    fi,
+                    ops[i_d][2].node,
+                    f"the stale samples file is removed under another name than the one that is written: one site {'appends' if smp.startswith('+') else 'replaces'} the suffix, the invalidation "
+                    f"{'replaces' if smp.startswith('+') else 'appends'} it — for a prefix that contains a dot the old '.smp' survives, and a crash between the writes leaves new data beside old samples",
+                    key_extra="dat-rewritten-beside-stale-smp",
+                )
+            elif not gone(smp, i_d):
                 res.violation(
                     "C08.R2",
                     fi,
@@ -347,7 +369,7 @@ def rule_r2(prog, res) -> None:
                     "that from_files() loads without error although data and samples belong to different products",
                     key_extra="dat-rewritten-beside-stale-smp",
                 )
-            elif not (i_d < i_s or gone(".dat", i_s)):
+            elif not (i_d < i_s or gone(dat, i_s)):
                 res.violation(
                     "C08.R2",
                     fi,
@@ -570,6 +592,15 @@ def rule_r5(prog, res) -> None:
     res.functions_analysed |= sub.functions_analysed
 
 
+def rule_r7(prog, res) -> None:
+    """the death of the process that rewrites the cache is noticed (shared with C09.R2): the parent re-opens the cache
+    only after a raising test of the writer's exit status that is right for every non-zero status, a kill by signal
+    (negative status) included — otherwise an overwrite whose writer died returns the old catalog as a success"""
+    from .common import shared_rule
+
+    shared_rule(res, c09.rule_r2, "C09", "C09.R2", "C08.R7")
+
+
 RULES = [
     ("C08.R1", rule_r1, QUICK),
     ("C08.R2", rule_r2, QUICK),
@@ -577,4 +608,5 @@ RULES = [
     ("C08.R4", rule_r4, QUICK),
     ("C08.R5", rule_r5, QUICK),
     ("C08.R6", rule_r6, QUICK),
+    ("C08.R7", rule_r7, QUICK),
 ]
